@@ -301,8 +301,11 @@ class MailboxData(MailboxDataInterface[Message]):
                      flag_set: frozenset[Flag], mode: FlagOp) -> Message:
         msg = await self.get(uid, cached_msg)
         msg.permanent_flags = mode.apply(msg.permanent_flags, flag_set)
-        self._mod_sequences.update([uid])
-        self._updated.set()
+        if not msg.expunged:
+            # an expunged message is only a copy for the response, logging an
+            # update for it would erase its expunge record from the log
+            self._mod_sequences.update([uid])
+            self._updated.set()
         return msg
 
     async def delete(self, uids: Iterable[int]) -> None:
